@@ -406,6 +406,47 @@ def r23_9(ctx, rep):
                    "it returns %s: the subscript array is transformed before the backend sees it, so its own bound check no longer applies to what the model wrote" % (bad or norm(v)))
 
 
+@SPEC.rule(
+    "R23.10",
+    "every branch of an if-expression is translated, and with it every subscript in it is checked: each iteration of the branch loop of "
+    "Generator.exitIfExpression passes the translation (`self.get_mx`) of that branch's condition AND of its value — component references "
+    "are resolved, and their subscripts range-checked, only when get_mx reaches them, so a branch that is skipped (`condition is the "
+    "literal false`) keeps an out-of-range subscript unseen",
+)
+def r23_10(ctx, rep):
+    from ..cfg import iteration_skips
+    R = "R23.10"
+    fn = ctx.func(GEN, "Generator.exitIfExpression", R)
+    site = GEN + ":Generator.exitIfExpression"
+    cfg = CFG(fn, R)
+    loops = [lp for lp in walk_local(fn) if isinstance(lp, ast.For)]
+    n = 0
+    for lp in loops:
+        for fld in ("conditions", "expressions"):
+            def reads(x, fld=fld):
+                return x.kind == "stmt" and any(isinstance(c.func, ast.Attribute) and c.func.attr == "get_mx" and c.args
+                                                and any(isinstance(a, ast.Attribute) and a.attr == fld for a in ast.walk(c.args[0])) for c in calls(x.ast))
+            if not any(reads(x) for x in cfg.stmts() if any(x.ast is y for st in lp.body for y in ast.walk(st))):
+                continue
+            n += 1
+            w = iteration_skips(cfg, lp, reads)
+            rep.ob(R, site, "each branch's %s translated" % fld, w is None,
+                   "an iteration over the branches can end without get_mx(tree.%s[...]): the subscripts in that branch are never checked" % fld,
+                   path=cfg.describe(w) if w else "")
+    if n < 2:
+        raise MechanismMissing(R, "the branch loop of exitIfExpression (get_mx of tree.conditions[..] and tree.expressions[..]) was not found")
+
+
+@SPEC.rule(
+    "R23.11",
+    "subscript values are computed for the loop they belong to: nothing in the CasADi generator is remembered under the printed form of an "
+    "expression — the element numbers a loop's index expression evaluates to depend on the loop's range, which str(<expression>) does not show",
+)
+def r23_11(ctx, rep):
+    from ._memo import no_text_keyed_tables
+    no_text_keyed_tables(ctx, rep, "R23.11", GEN, "the CasADi generator", 20)
+
+
 # -- seeded variants ---------------------------------------------------------
 from ._mut import replace_in_func  # noqa: E402
 
